@@ -10,6 +10,7 @@ package histutil
 // a reference list with an index.
 
 import (
+	"errors"
 	"fmt"
 	"os"
 	"path/filepath"
@@ -54,6 +55,7 @@ type c29World struct {
 	stored []string // commands in the database before the session starts, oldest first
 	del    int      // bit i set: stored[i] was deleted again before the session started (boltdb only)
 	ops    []c29Op
+	faults bool // explored with one-off database errors during navigation
 }
 
 func (w *c29World) size() int {
@@ -67,6 +69,9 @@ func (w *c29World) size() int {
 func (w *c29World) String() string {
 	var sb strings.Builder
 	fmt.Fprintf(&sb, "%s stored=%q", c29KindNames[w.kind], w.stored)
+	if w.faults {
+		sb.WriteString(" [with injected database errors]")
+	}
 	if w.del != 0 {
 		sb.WriteString(" deleted-before-session=[")
 		for i := range w.stored {
@@ -142,6 +147,8 @@ type c29Bounds struct {
 	holeSess, holeForn        int // additions in worlds whose stored history has holes
 	walk, smallSize, walkBig  int // length of the black-box Prev/Next walks in worlds of <= smallSize commands / in larger worlds
 	layers                    int // foreign additions while a cursor is in use
+	fStored, fSess, fForn     int // worlds explored with injected database errors
+	maxFaults, fWalk          int // number of one-off errors per walk; length of the replayed walks with the k-th database call failing
 }
 
 func c29Popcount(m int) int {
@@ -160,15 +167,15 @@ func c29Worlds(b c29Bounds) []c29World {
 	holeOps := c29OpSeqs(b.holeSess, b.holeForn)
 	for _, st := range c29Seqs(b.stored) {
 		for _, ops := range hyOps {
-			ws = append(ws, c29World{c29HybridReal, st, 0, ops}, c29World{c29HybridFake, st, 0, ops})
+			ws = append(ws, c29World{kind: c29HybridReal, stored: st, ops: ops}, c29World{kind: c29HybridFake, stored: st, ops: ops})
 		}
 		for _, ops := range dbOps {
-			ws = append(ws, c29World{c29DBReal, st, 0, ops}, c29World{c29DBFake, st, 0, ops})
+			ws = append(ws, c29World{kind: c29DBReal, stored: st, ops: ops}, c29World{kind: c29DBFake, stored: st, ops: ops})
 		}
 		for _, ops := range memOps {
-			ws = append(ws, c29World{c29Mem, st, 0, ops})
+			ws = append(ws, c29World{kind: c29Mem, stored: st, ops: ops})
 			if len(st) == 0 {
-				ws = append(ws, c29World{c29HybridNil, nil, 0, ops})
+				ws = append(ws, c29World{kind: c29HybridNil, ops: ops})
 			}
 		}
 	}
@@ -179,7 +186,16 @@ func c29Worlds(b c29Bounds) []c29World {
 				continue
 			}
 			for _, ops := range holeOps {
-				ws = append(ws, c29World{c29HybridReal, st, m, ops}, c29World{c29DBReal, st, m, ops})
+				ws = append(ws, c29World{kind: c29HybridReal, stored: st, del: m, ops: ops}, c29World{kind: c29DBReal, stored: st, del: m, ops: ops})
+			}
+		}
+	}
+	// worlds explored with one-off database errors (reduced bound)
+	fOps := c29OpSeqs(b.fSess, b.fForn)
+	for _, st := range c29Seqs(b.fStored) {
+		for _, ops := range fOps {
+			for _, k := range []int{c29HybridReal, c29HybridFake, c29DBReal, c29DBFake} {
+				ws = append(ws, c29World{kind: k, stored: st, ops: ops, faults: true})
 			}
 		}
 	}
@@ -202,6 +218,7 @@ type c29Inst struct {
 	hidden     map[int]bool // sequence numbers of commands that must not be visible
 	addForeign func(text string)
 	close      func()
+	fdb        *c29FaultDB // non-nil in worlds with injected database errors
 }
 
 var c29FileCtr atomic.Int64
@@ -312,6 +329,10 @@ func c29Build(w *c29World) *c29Inst {
 			c29Must(err, "db.AddCmd (foreign)")
 			inst.hidden[seq] = true
 		}
+	}
+	if w.faults {
+		inst.fdb = &c29FaultDB{DB: db}
+		db = inst.fdb
 	}
 	var err error
 	frozen := false
@@ -535,7 +556,28 @@ type c29Node struct {
 	path string
 }
 
-type c29Stats struct{ states, transitions, traces, steps, cases int64 }
+type c29Stats struct {
+	states, transitions, traces, steps, cases int64
+	// exploration with injected database errors
+	fStates, fTransitions, fTraces, fCases, fInjected, fReported int64
+	njStale, njNotReported                                       int64
+}
+
+func (t *c29Stats) add(o *c29Stats) {
+	t.states += o.states
+	t.transitions += o.transitions
+	t.traces += o.traces
+	t.steps += o.steps
+	t.cases += o.cases
+	t.fStates += o.fStates
+	t.fTransitions += o.fTransitions
+	t.fTraces += o.fTraces
+	t.fCases += o.fCases
+	t.fInjected += o.fInjected
+	t.fReported += o.fReported
+	t.njStale += o.njStale
+	t.njNotReported += o.njNotReported
+}
 
 type c29CursorWorld struct {
 	inst   *c29Inst
@@ -745,6 +787,275 @@ func c29RunWorld(wi int, w *c29World, b c29Bounds, vc *c29Collector, l *vk.Local
 	}
 }
 
+// ---------------------------------------------------------------- environment faults: one-off database errors
+
+var c29ErrInjected = errors.New("injected one-off database error")
+
+// c29FaultDB wraps the database under the store; the armed-th PrevCmd/NextCmd
+// call from now on (the only calls cursors make) fails once with c29ErrInjected.
+type c29FaultDB struct {
+	DB
+	armed int
+	calls int
+}
+
+func (f *c29FaultDB) hit() error {
+	f.calls++
+	if f.armed > 0 {
+		f.armed--
+		if f.armed == 0 {
+			return c29ErrInjected
+		}
+	}
+	return nil
+}
+
+func (f *c29FaultDB) PrevCmd(upto int, prefix string) (storedefs.Cmd, error) {
+	if err := f.hit(); err != nil {
+		return storedefs.Cmd{}, err
+	}
+	return f.DB.PrevCmd(upto, prefix)
+}
+
+func (f *c29FaultDB) NextCmd(from int, prefix string) (storedefs.Cmd, error) {
+	if err := f.hit(); err != nil {
+		return storedefs.Cmd{}, err
+	}
+	return f.DB.NextCmd(from, prefix)
+}
+
+// With faults the reference is a set of possible positions (bit p+1 for
+// position p in -1..n): the documentation does not say whether a step on which
+// the database fails moves the cursor, so both are allowed; everything Get
+// yields without an error must still be the reference entry at a possible position.
+func c29StepSet(cand uint32, n int, prev bool) uint32 {
+	var out uint32
+	for p := -1; p <= n; p++ {
+		if cand>>(p+1)&1 == 1 {
+			out |= 1 << (c29Step(p, n, prev) + 1)
+		}
+	}
+	return out
+}
+
+func c29ShowSet(cand uint32, n int) string {
+	var parts []string
+	for p := -1; p <= n; p++ {
+		if cand>>(p+1)&1 == 1 {
+			parts = append(parts, strconv.Itoa(p))
+		}
+	}
+	return "{" + strings.Join(parts, ",") + "}"
+}
+
+// judgeF judges Get after one step from the possible positions cand; faulted
+// says whether a database call failed during the step. It returns the new
+// possible positions, or ok=false after reporting a violation.
+func (cw *c29CursorWorld) judgeF(c Cursor, cand uint32, prev, faulted bool, path string, st *c29Stats) (uint32, bool) {
+	n := len(cw.exp)
+	allowed := c29StepSet(cand, n, prev)
+	if faulted {
+		allowed |= cand
+		st.fInjected++
+	}
+	cmd, err := c.Get()
+	if err != nil && err != ErrEndOfHistory {
+		if faulted {
+			st.fReported++
+		} else {
+			// an error although no database call failed on this step (a stale
+			// one): not judged, the position is unknown within cand | allowed
+			st.njStale++
+		}
+		return allowed | cand, true
+	}
+	if faulted {
+		st.njNotReported++ // judged only for the position
+	}
+	if err == ErrEndOfHistory {
+		ends := allowed & (1 | 1<<(n+1))
+		if ends == 0 {
+			cw.bad = true
+			cw.report("premature-end-of-history-after-db-error", path, fmt.Sprintf("Get returned ErrEndOfHistory, but the possible reference positions are %s", c29ShowSet(allowed, n)))
+			return 0, false
+		}
+		return ends, true
+	}
+	var match uint32
+	for p := 0; p < n; p++ {
+		if allowed>>(p+1)&1 == 1 && cw.exp[p].text == cmd.Text && (!cw.exp[p].seqKnown || cw.exp[p].seq == cmd.Seq) {
+			match |= 1 << (p + 1)
+		}
+	}
+	if match != 0 {
+		return match, true
+	}
+	sym := "wrong-entry-after-db-error"
+	inHistory := false
+	for _, e := range cw.exp {
+		if e.text == cmd.Text && (!e.seqKnown || e.seq == cmd.Seq) {
+			inHistory = true
+		}
+	}
+	if !inHistory {
+		sym = "phantom-entry-after-db-error"
+	}
+	cw.bad = true
+	cw.report(sym, path, fmt.Sprintf("Get returned {%q seq %d} without error, but the possible reference positions are %s", cmd.Text, cmd.Seq, c29ShowSet(allowed, n)))
+	return 0, false
+}
+
+type c29FNode struct {
+	cur  Cursor
+	cand uint32
+	used int
+	path string
+}
+
+// bfsFaults explores (cursor state x possible positions x errors used) under
+// {Prev, Next, Prev/Next with the j-th database call of the step failing} to a
+// fixpoint, with at most maxFaults failing calls per walk (one per step).
+func (cw *c29CursorWorld) bfsFaults(maxFaults int, st *c29Stats) {
+	fdb := cw.inst.fdb
+	start := c29FNode{cw.mk(), 1, 0, ""}
+	if !cw.judge(start.cur, -1, "") {
+		return
+	}
+	key := func(nd c29FNode) string {
+		return c29FP(nd.cur) + "|" + strconv.Itoa(int(nd.cand)) + "|" + strconv.Itoa(nd.used)
+	}
+	seen := map[string]bool{key(start): true}
+	queue := []c29FNode{start}
+	for qi := 0; qi < len(queue); qi++ {
+		nd := queue[qi]
+		for op := 0; op < 2; op++ {
+			prev := op == 0
+			opName := "N"
+			if prev {
+				opName = "P"
+			}
+			do := func(c Cursor) {
+				if prev {
+					c.Prev()
+				} else {
+					c.Next()
+				}
+			}
+			try := func(c2 Cursor, faulted bool, path string, used int) {
+				st.fTransitions++
+				cand, ok := cw.judgeF(c2, nd.cand, prev, faulted, path, st)
+				if !ok {
+					return
+				}
+				n2 := c29FNode{c2, cand, used, path}
+				if k := key(n2); !seen[k] {
+					seen[k] = true
+					queue = append(queue, n2)
+				}
+			}
+			c2 := c29Clone(nd.cur)
+			fdb.calls, fdb.armed = 0, 0
+			do(c2)
+			ncalls := fdb.calls
+			try(c2, false, nd.path+opName, nd.used)
+			if nd.used >= maxFaults {
+				continue
+			}
+			for j := 1; j <= ncalls; j++ {
+				c3 := c29Clone(nd.cur)
+				fdb.armed = j
+				do(c3)
+				fired := fdb.armed == 0
+				fdb.armed = 0
+				if !fired {
+					panic("harness: armed database error did not fire")
+				}
+				try(c3, true, fmt.Sprintf("%s%s!%d", nd.path, opName, j), nd.used+1)
+			}
+		}
+		if len(queue) > 200000 {
+			panic("harness: cursor state space with faults does not close")
+		}
+	}
+	st.fStates += int64(len(queue))
+}
+
+// walksFaults replays every Prev/Next sequence of L steps on a fresh cursor
+// through the public interface, first without errors to count the database
+// calls, then once for every k with exactly the k-th database call failing.
+func (cw *c29CursorWorld) walksFaults(L int, st *c29Stats) {
+	fdb := cw.inst.fdb
+	for mask := 0; mask < 1<<L; mask++ {
+		total := -1
+		for k := 0; total < 0 || k <= total; k++ {
+			c := cw.mk()
+			fdb.calls, fdb.armed = 0, k
+			cand := uint32(1)
+			path := ""
+			st.fTraces++
+			for i := 0; i < L; i++ {
+				prev := mask>>i&1 == 0
+				before := fdb.armed
+				if prev {
+					c.Prev()
+					path += "P"
+				} else {
+					c.Next()
+					path += "N"
+				}
+				faulted := before > 0 && fdb.armed == 0
+				if faulted {
+					path += "!"
+				}
+				var ok bool
+				if cand, ok = cw.judgeF(c, cand, prev, faulted, path, st); !ok {
+					fdb.armed = 0
+					return
+				}
+			}
+			fdb.armed = 0
+			if k == 0 {
+				total = fdb.calls
+			}
+		}
+	}
+}
+
+func c29RunFaultWorld(wi int, w *c29World, b c29Bounds, vc *c29Collector, l *vk.Local, st *c29Stats) {
+	inst := c29Build(w)
+	defer inst.close()
+	for _, prefix := range c29Prefixes {
+		for _, dedup := range []bool{false, true} {
+			prefix, dedup := prefix, dedup
+			cw := &c29CursorWorld{inst: inst, prefix: prefix, dedup: dedup, exp: c29Expect(inst.view, prefix, dedup)}
+			kind := c29KindNames[w.kind]
+			if dedup {
+				kind += "+dedup"
+			}
+			cw.report = func(symptom, path, detail string) {
+				vc.report(symptom+":"+kind, wi, fmt.Sprintf("%s; cursor for prefix %q (dedup=%v), steps %q (P=Prev, N=Next, !j = the j-th database call of that step fails once): %s; reference list newest first (position 0 = newest, -1 / %d = past the ends): %s",
+					w, prefix, dedup, path, detail, len(cw.exp), c29ShowList(cw.exp)))
+			}
+			l.Begin(fmt.Sprintf("%s; cursor for prefix %q (dedup=%v)", w, prefix, dedup))
+			if p := vk.Try(func() {
+				cw.bfsFaults(b.maxFaults, st)
+				if !cw.bad {
+					cw.walksFaults(b.fWalk, st)
+				}
+			}); p != "" {
+				if strings.Contains(p, "harness:") {
+					panic(p)
+				}
+				inst.fdb.armed = 0
+				vc.report("panic-after-db-error:"+vk.PanicSite(p), wi, fmt.Sprintf("%s; cursor for prefix %q (dedup=%v): panic %s", w, prefix, dedup, p))
+			}
+			l.End()
+			st.fCases++
+			l.Case("faults " + c29Class(w, inst, prefix, dedup, cw.exp))
+		}
+	}
+}
+
 func c29ShowList(exp []c29Entry) string {
 	var parts []string
 	for _, e := range exp {
@@ -760,15 +1071,16 @@ func c29ShowList(exp []c29Entry) string {
 func TestVerifC29(t *testing.T) {
 	vk.Run(t, "C29", "model_checking", func(c *vk.Ctx) {
 		b := vk.Pick(c,
-			c29Bounds{stored: 3, storedDel: 3, maxDel: 1, sess: 2, forn: 2, dbSess: 1, dbForn: 1, memSess: 2, holeSess: 1, holeForn: 1, walk: 8, smallSize: 3, walkBig: 6, layers: 1},
-			c29Bounds{stored: 4, storedDel: 3, maxDel: 3, sess: 2, forn: 2, dbSess: 2, dbForn: 1, memSess: 3, holeSess: 1, holeForn: 1, walk: 8, smallSize: 5, walkBig: 6, layers: 2})
+			c29Bounds{stored: 3, storedDel: 3, maxDel: 1, sess: 2, forn: 2, dbSess: 1, dbForn: 1, memSess: 2, holeSess: 1, holeForn: 1, walk: 8, smallSize: 3, walkBig: 6, layers: 1, fStored: 3, fSess: 1, fForn: 1, maxFaults: 1, fWalk: 4},
+			c29Bounds{stored: 4, storedDel: 3, maxDel: 3, sess: 2, forn: 2, dbSess: 2, dbForn: 1, memSess: 3, holeSess: 1, holeForn: 1, walk: 8, smallSize: 5, walkBig: 6, layers: 2, fStored: 3, fSess: 2, fForn: 1, maxFaults: 2, fWalk: 5})
 		worlds := c29Worlds(b)
-		c.Rule(fmt.Sprintf("world = (store kind in %q, stored history = every sequence of <=%d commands over %q [boltdb kinds also: every history of <=%d commands with 1..%d of them deleted before the session], every interleaving of <=%d session and <=%d foreign additions over the same texts for hybrid stores (<=%d/<=%d for plain DB stores, <=%d/<=%d for histories with holes, <=%d session additions for memory stores)); in every world every prefix in %q with and without NewDedupCursor: breadth-first search of the product (exact cursor state x reference position) under {Prev, Next} to a fixpoint (i.e. walks of every length), continued from every reached state after each of %d further foreign addition(s) made while the cursors are live, plus every Prev/Next walk of <=%d steps (<=%d steps in worlds with more than %d commands in total) replayed on a fresh cursor through the Cursor interface only; Get is compared with the reference after every step; worlds simplest first; class = (store kind, dedup and number of removed duplicates, prefix, matching old / session / hidden commands, holes)",
-			c29KindNames, b.stored, c29Texts, b.storedDel, b.maxDel, b.sess, b.forn, b.dbSess, b.dbForn, b.holeSess, b.holeForn, b.memSess, c29Prefixes, b.layers, b.walk, b.walkBig, b.smallSize))
+		c.Rule(fmt.Sprintf("world = (store kind in %q, stored history = every sequence of <=%d commands over %q [boltdb kinds also: every history of <=%d commands with 1..%d of them deleted before the session], every interleaving of <=%d session and <=%d foreign additions over the same texts for hybrid stores (<=%d/<=%d for plain DB stores, <=%d/<=%d for histories with holes, <=%d session additions for memory stores)); in every world every prefix in %q with and without NewDedupCursor: breadth-first search of the product (exact cursor state x reference position) under {Prev, Next} to a fixpoint (i.e. walks of every length), continued from every reached state after each of %d further foreign addition(s) made while the cursors are live, plus every Prev/Next walk of <=%d steps (<=%d steps in worlds with more than %d commands in total) replayed on a fresh cursor through the Cursor interface only; Get is compared with the reference after every step; environment faults: in the hybrid and plain DB worlds with <=%d stored commands and <=%d session / <=%d foreign additions the database is wrapped and the search is repeated with the extra transitions \"step during which the j-th database call fails once\" (every j up to the number of calls the step makes, <=%d failing call(s) per walk) over (cursor state x set of possible reference positions x errors used) to a fixpoint, plus every walk of %d steps replayed with exactly the k-th database call failing for every k up to the number of calls of the error-free replay; worlds simplest first; class = (store kind, dedup and number of removed duplicates, prefix, matching old / session / hidden commands, holes)",
+			c29KindNames, b.stored, c29Texts, b.storedDel, b.maxDel, b.sess, b.forn, b.dbSess, b.dbForn, b.holeSess, b.holeForn, b.memSess, c29Prefixes, b.layers, b.walk, b.walkBig, b.smallSize, b.fStored, b.fSess, b.fForn, b.maxFaults, b.fWalk))
 		c.Assume(
 			"reference: the session's view is the commands present in the database when the store was created plus the session's own additions (none for NewDBStore, whose view is documented as frozen), filtered by prefix, newest first, with dedup each text once at its most recent occurrence; an index into it clamped at one-past either end; Get must report ErrEndOfHistory exactly at the two one-past positions",
-			"foreign additions are made directly on the same database object (what the daemon does on behalf of another session); database errors, session additions while a cursor is live and concurrent use of one cursor are not covered",
+			"foreign additions are made directly on the same database object (what the daemon does on behalf of another session); database errors during store creation or AddCmd, two failing calls within one step, session additions while a cursor is live and concurrent use of one cursor are not covered",
 			"the command returned together with ErrEndOfHistory and sequence numbers of NewMemStore's initial commands are not judged",
+			"with an injected database error the documentation leaves open whether the failing step moves the cursor and whether Get must report the error: both positions are allowed afterwards, an unreported error with a consistent position and an error reported again on a later step without a failing call are counted as not judged; judged: whatever Get yields without error is the reference entry at a possible position (so an actual history entry matching the prefix, in order, without repeats), ErrEndOfHistory only at a possible end, and the walk continues consistently after the error",
 			"state identity for the search uses the cursors' private fields (in-package); the replayed walks do not")
 		c.Set("bounds", fmt.Sprintf("%+v", b))
 		c.Set("worlds", len(worlds))
@@ -788,13 +1100,13 @@ func TestVerifC29(t *testing.T) {
 				return
 			}
 			var st c29Stats
-			c29RunWorld(i, &worlds[i], b, vc, l, &st)
+			if worlds[i].faults {
+				c29RunFaultWorld(i, &worlds[i], b, vc, l, &st)
+			} else {
+				c29RunWorld(i, &worlds[i], b, vc, l, &st)
+			}
 			mu.Lock()
-			tot.states += st.states
-			tot.transitions += st.transitions
-			tot.traces += st.traces
-			tot.steps += st.steps
-			tot.cases += st.cases
+			tot.add(&st)
 			mu.Unlock()
 		})
 		c29CloseAll()
@@ -815,5 +1127,13 @@ func TestVerifC29(t *testing.T) {
 		c.Set("traces_validated_against_impl", tot.traces)
 		c.Set("trace_steps", tot.steps)
 		c.Set("cursor_worlds", tot.cases)
+		c.Set("fault_cursor_worlds", tot.fCases)
+		c.Set("fault_states", tot.fStates)
+		c.Set("fault_transitions", tot.fTransitions)
+		c.Set("fault_traces_validated_against_impl", tot.fTraces)
+		c.Set("faults_injected", tot.fInjected)
+		c.Set("faults_reported_by_get", tot.fReported)
+		c.Set("not_judged_fault_not_reported_position_consistent", tot.njNotReported)
+		c.Set("not_judged_stale_error_on_later_step", tot.njStale)
 	})
 }
